@@ -82,6 +82,12 @@ func init() {
 		a := ma.StringCast(s)
 		vfHPTok[tok] = a
 		vfHPName[string(a.Bytes())] = tok
+		// the peerstore drops a trailing /p2p/<the peer itself>
+		if b, last := ma.SplitLast(a); last != nil && last.Protocol().Code == ma.P_P2P && b != nil {
+			if _, ok := vfHPName[string(b.Bytes())]; !ok {
+				vfHPName[string(b.Bytes())] = tok
+			}
+		}
 	}
 }
 
@@ -440,9 +446,12 @@ func (h *vfHPHost) Connect(ctx context.Context, pi peer.AddrInfo) error {
 			return nil
 		}
 		if ds := w.dialSetLocked(force); len(ds) > 0 {
-			kind := "D"
-			if vfHPIsRelayTok(ds[0]) {
-				kind = "L"
+			// direct addresses are dialled first (dial ranking): a relayed connection only if there is nothing else
+			kind := "L"
+			for _, a := range ds {
+				if !vfHPIsRelayTok(a) {
+					kind = "D"
+				}
 			}
 			w.addConnLocked(kind, network.DirOutbound)
 			w.emitLocked("connect_ret", "res", "ok", "force", force)
@@ -1235,11 +1244,8 @@ func (r *vfHPRun) streamEnd(op vfh.Op, before map[string][2]int) {
 	}
 }
 
-func vfHPWalk(t *testing.T, res *vfh.Result, wk vfh.Walk, seed int64, traceFile string, stats map[string]int) {
+func vfHPWalk(t *testing.T, res *vfh.Result, wk vfh.Walk, seed int64, stats map[string]int) (trace *vfh.Trace) {
 	synctest.Test(t, func(t *testing.T) {
-		old := StreamTimeout
-		StreamTimeout = vfHPStreamTimeout
-		defer func() { StreamTimeout = old }()
 		var init struct {
 			Conns []string `json:"conns"`
 			Ps    []string `json:"ps"`
@@ -1377,12 +1383,9 @@ func vfHPWalk(t *testing.T, res *vfh.Result, wk vfh.Walk, seed int64, traceFile 
 		if wk.Walk%97 == 0 {
 			res.Sample(map[string]any{"walk": wk.Walk, "events": w.tr.Events()})
 		}
-		if traceFile != "" {
-			if err := w.tr.AppendTo(traceFile, nil); err != nil {
-				t.Fatal(err)
-			}
-		}
+		trace = w.tr
 	})
+	return trace
 }
 
 // TestVerifC12HolePunchReplay replays the behaviour files of the hole-punch model.
@@ -1396,26 +1399,163 @@ func TestVerifC12HolePunchReplay(t *testing.T) {
 	}
 	traceFile := filepath.Join(vfh.Out(), "holepunch.ndjson")
 	os.Remove(traceFile)
-	stats := map[string]int{}
 	every := vfh.EnvInt("VERIF_C12HP_TRACE_EVERY", 1)
+	var walks []vfh.Walk
 	for _, f := range files {
-		_, walks, err := vfh.LoadWalks(f)
+		_, ws, err := vfh.LoadWalks(f)
 		if err != nil {
 			t.Fatal(err)
 		}
-		for _, wk := range walks {
-			tf := ""
-			if every > 0 && wk.Walk%every == 0 {
-				tf = traceFile
+		walks = append(walks, ws...)
+	}
+	old := StreamTimeout
+	StreamTimeout = vfHPStreamTimeout
+	defer func() { StreamTimeout = old }()
+	// every walk runs in a bubble of its own: independent, so a few of them run side by side
+	nw := vfh.EnvInt("VERIF_C12HP_WORKERS", 4)
+	stats := make([]map[string]int, nw)
+	traces := make([]*vfh.Trace, len(walks))
+	var wg sync.WaitGroup
+	for k := 0; k < nw; k++ {
+		stats[k] = map[string]int{}
+		wg.Add(1)
+		go func(k int) {
+			defer wg.Done()
+			for i := k; i < len(walks); i += nw {
+				traces[i] = vfHPWalk(t, res, walks[i], vfh.Seed(), stats[k])
 			}
-			vfHPWalk(t, res, wk, vfh.Seed(), tf, stats)
+		}(k)
+	}
+	wg.Wait()
+	for i, tr := range traces {
+		if tr != nil && every > 0 && walks[i].Walk%every == 0 {
+			if err := tr.AppendTo(traceFile, nil); err != nil {
+				t.Fatal(err)
+			}
 		}
 	}
-	for k, v := range stats {
+	total := map[string]int{}
+	for _, m := range stats {
+		for k, v := range m {
+			total[k] += v
+		}
+	}
+	for k, v := range total {
 		res.Set(k, v)
 	}
 	res.Traces = []string{traceFile}
 	if err := res.Write(); err != nil {
 		t.Fatal(err)
 	}
+}
+
+// ---------------------------------------------------------------- exported for zz_verif_c12hp_host_test.go
+// (package holepunch_test: the real BasicHost cannot be imported from inside this package)
+
+func VfHPAddr(tok string) ma.Multiaddr    { return vfHPTok[tok] }
+func VfHPToken(a ma.Multiaddr) string     { return vfHPTokenOf(a) }
+func VfHPRelayToken(tok string) bool      { return vfHPIsRelayTok(tok) }
+func VfHPIDs() (string, string, string)   { return vfHPLocalID, vfHPRemoteID, vfHPRelayID }
+
+func vfHPBareWorld(conns, psToks []string) (*vfHPWorld, error) {
+	ps, err := pstoremem.NewPeerstore()
+	if err != nil {
+		return nil, err
+	}
+	remote, _ := peer.Decode(vfHPRemoteID)
+	local, _ := peer.Decode(vfHPLocalID)
+	w := &vfHPWorld{tr: vfh.NewTrace("fake"), t0: time.Now(), ps: ps, local: local, remote: remote, side: "I"}
+	w.net = &vfHPNet{w: w}
+	for _, tok := range psToks {
+		ps.AddAddr(remote, vfHPTok[tok], peerstore.PermanentAddrTTL)
+	}
+	w.mu.Lock()
+	for _, k := range conns {
+		w.addConnLocked(k, network.DirInbound)
+	}
+	w.mu.Unlock()
+	return w, nil
+}
+
+func (w *vfHPWorld) kinds() []string {
+	w.mu.Lock()
+	defer w.mu.Unlock()
+	out := []string{}
+	for _, c := range w.conns {
+		out = append(out, c.kind)
+	}
+	sort.Strings(out)
+	return out
+}
+
+// VfHPFakeConnect: what the fake host of the replay harness does for host.Connect in the given situation
+// (must be called inside a synctest bubble).
+func VfHPFakeConnect(conns, psToks, addrToks []string, force, allow, dialOK bool) (ok bool, dialed, after []string, err error) {
+	w, err := vfHPBareWorld(conns, psToks)
+	if err != nil {
+		return false, nil, nil, err
+	}
+	defer w.ps.Close()
+	ctx := context.Background()
+	if force {
+		ctx = network.WithForceDirectDial(ctx, "vf")
+	}
+	if allow {
+		ctx = network.WithAllowLimitedConn(ctx, "vf")
+	}
+	pi := peer.AddrInfo{ID: w.remote}
+	for _, tok := range addrToks {
+		pi.Addrs = append(pi.Addrs, vfHPTok[tok])
+	}
+	done := make(chan error, 1)
+	go func() { done <- (&vfHPHost{w: w}).Connect(ctx, pi) }()
+	synctest.Wait()
+	w.mu.Lock()
+	g := w.gate
+	w.mu.Unlock()
+	if g == nil {
+		return false, nil, nil, errors.New("vf: the fake Connect did not reach its gate")
+	}
+	dialed = g.dialed
+	out := "fail"
+	if dialOK || len(dialed) == 0 {
+		out = "ok" // nothing to dial: the answer is decided by the connections that exist
+	}
+	w.answer(vfHPAns{out: out})
+	cerr := <-done
+	return cerr == nil, dialed, w.kinds(), nil
+}
+
+// VfHPFakeNewStream: the kind of connection the fake host's NewStream rides ("" = refused).
+func VfHPFakeNewStream(conns []string, allow, nodial bool) (string, error) {
+	w, err := vfHPBareWorld(conns, nil)
+	if err != nil {
+		return "", err
+	}
+	defer w.ps.Close()
+	ctx := context.Background()
+	if nodial {
+		ctx = network.WithNoDial(ctx, "vf")
+	}
+	if allow {
+		ctx = network.WithAllowLimitedConn(ctx, "vf")
+	}
+	type ret struct {
+		s   network.Stream
+		err error
+	}
+	done := make(chan ret, 1)
+	go func() {
+		s, err := (&vfHPHost{w: w}).NewStream(ctx, w.remote, Protocol)
+		done <- ret{s, err}
+	}()
+	synctest.Wait()
+	if !w.answer(vfHPAns{out: "ok"}) {
+		return "", errors.New("vf: the fake NewStream did not reach its gate")
+	}
+	r := <-done
+	if r.err != nil {
+		return "", nil
+	}
+	return r.s.(*vfHPStream).c.kind, nil
 }
